@@ -20,13 +20,21 @@ def items(tier, seed):
     yield from spaces.mk(
         ['flat23'], force='product',
         fargs={'parts': [('windows', {'values': [1, 2]}),
-                         ('durs', {'values': [0, 1, 2]})]},
-        job_open=JOB, top_open={'timeout': [0, 1, 2, 3], 'k': ['nest']},
+                         ('durs', {'values': [0, 1, 2] if th else [1, 2]})]},
+        job_open=JOB if th else dict(JOB, dur=[0, 'never']),
+        top_open={'timeout': [0, 1, 2, 3], 'k': ['nest']},
         extra=_base.X_THASH, k=3 if th else 2, bound=3 if th else 2)
     yield from spaces.mk(
         ['flat4'], th, force='windows', fargs={'values': [1, 2, 3]},
         job_open={'dur': [0, 2], 'out': ['raise'], 'cdelay': [1]},
         top_open={'timeout': [1, 2]}, k=2 if th else 1, bound=2 if th else 1)
+    # more entry jobs than slots plus successors: 5 jobs, few edges
+    yield from spaces.mk(
+        ['flat5s'], th, force='windows', fargs={'values': [1, 2, 3]},
+        job_open={'dur': [0, 2]}, top_open={}, k=1, bound=3 if th else 2)
+    yield from spaces.mk(
+        ['flat6s'], force='windows', fargs={'values': [1, 2, 3]},
+        job_open={}, top_open={}, k=0, bound=2)
     yield from spaces.mk(
         ['nest32'], force='windows', fargs={'values': [None, 1, 2]},
         job_open={'dur': [0, 2], 'out': ['raise'], 'critical': [True],
